@@ -140,10 +140,16 @@ type Ctx struct {
 	States     map[State]bool
 	Undecided  []string
 	returns    []cst
-	Depth      int               // > 0 while an inlined callee is being simulated
-	stack      []*types.Func     // inlined callees (recursion guard)
-	rootPkg    *types.Package    // package of the simulated root function
-	pending    [][]*ast.CallExpr // deferred calls of the inlined callees, innermost last
+	boolDepth  int
+	// automatic atoms: boolean locals that receive a constant true / false from the return
+	// statements of an immediately invoked literal (`x, ok := func() (T, bool) {...}()`)
+	autoAtom map[types.Object]int
+	tupleLHS []ast.Expr        // targets of the IIFE call being simulated (nil otherwise)
+	tupleAt  int               // c.Depth inside that IIFE
+	Depth    int               // > 0 while an inlined callee is being simulated
+	stack    []*types.Func     // inlined callees (recursion guard)
+	rootPkg  *types.Package    // package of the simulated root function
+	pending  [][]*ast.CallExpr // deferred calls of the inlined callees, innermost last
 }
 
 // Violate records a violation at the current event with the path that led here.
@@ -602,7 +608,40 @@ func (c *Ctx) cond(e ast.Expr, in []cst) (t, f []cst) {
 	return c.atom(e, in)
 }
 
+// BoolLocalDef, when set (by the rules package), maps an identifier naming a boolean local
+// with exactly one definition to the defining expression, so that
+// `stale := a && b; if x || stale` is evaluated like `if x || (a && b)`.
+var BoolLocalDef func(info *types.Info, id *ast.Ident) ast.Expr
+
 func (c *Ctx) atom(e ast.Expr, in []cst) (t, f []cst) {
+	if id, ok := ast.Unparen(e).(*ast.Ident); ok && BoolLocalDef != nil && c.boolDepth < 3 {
+		if def := BoolLocalDef(c.Info, id); def != nil {
+			c.boolDepth++
+			t, f = c.cond(def, in)
+			c.boolDepth--
+			return t, f
+		}
+	}
+	if id, ok := ast.Unparen(e).(*ast.Ident); ok && len(c.autoAtom) > 0 {
+		if obj := c.Info.Uses[id]; obj != nil {
+			if idx, has := c.autoAtom[obj]; has {
+				for _, x := range in {
+					tr := &trace{pos: e.Pos(), prev: x.t}
+					if x.s.V[idx] != False {
+						s := x.s
+						s.V[idx] = True
+						t = append(t, cst{s, tr})
+					}
+					if x.s.V[idx] != True {
+						s := x.s
+						s.V[idx] = False
+						f = append(f, cst{s, tr})
+					}
+				}
+				return dedup(t), dedup(f)
+			}
+		}
+	}
 	if tv, ok := c.Info.Types[e]; ok && tv.Value != nil {
 		// constant condition
 		if tv.Value.String() == "true" {
@@ -701,6 +740,17 @@ func (c *Ctx) stmt(s ast.Stmt, in []cst, label string) flow {
 				in = c.expr(lt.X, in)
 			}
 		}
+		if len(x.Rhs) == 1 {
+			if call, ok := ast.Unparen(x.Rhs[0]).(*ast.CallExpr); ok {
+				if _, isLit := ast.Unparen(call.Fun).(*ast.FuncLit); isLit {
+					savedL, savedAt := c.tupleLHS, c.tupleAt
+					c.tupleLHS, c.tupleAt = x.Lhs, c.Depth+1
+					in = c.expr(x.Rhs[0], in)
+					c.tupleLHS, c.tupleAt = savedL, savedAt
+					return flow{out: c.assignEvent(x, x.Lhs, x.Rhs, x.Tok, in)}
+				}
+			}
+		}
 		for _, r := range x.Rhs {
 			in = c.expr(r, in)
 		}
@@ -743,6 +793,47 @@ func (c *Ctx) stmt(s ast.Stmt, in []cst, label string) flow {
 			in = c.expr(r, in)
 		}
 		out := c.emit(&Event{Kind: EvReturn, Node: x, Pos: x.Pos(), Results: x.Results}, in)
+		if c.tupleLHS != nil && c.Depth == c.tupleAt && len(x.Results) == len(c.tupleLHS) {
+			for i, res := range x.Results {
+				id, ok := c.tupleLHS[i].(*ast.Ident)
+				if !ok || id.Name == "_" {
+					continue
+				}
+				obj := c.Info.Defs[id]
+				if obj == nil {
+					obj = c.Info.Uses[id]
+				}
+				if obj == nil {
+					continue
+				}
+				if b, ok := obj.Type().Underlying().(*types.Basic); !ok || b.Info()&types.IsBoolean == 0 {
+					continue
+				}
+				idx, has := c.autoAtom[obj]
+				if !has {
+					if c.autoAtom == nil {
+						c.autoAtom = map[types.Object]int{}
+					}
+					idx = MaxAtoms - 1 - len(c.autoAtom)
+					if idx < 4 {
+						continue // keep the low indices for the rule's own atoms
+					}
+					c.autoAtom[obj] = idx
+				}
+				v := Unknown
+				if tv, ok := c.Info.Types[res]; ok && tv.Value != nil {
+					switch tv.Value.String() {
+					case "true":
+						v = True
+					case "false":
+						v = False
+					}
+				}
+				for k := range out {
+					out[k].s.V[idx] = v
+				}
+			}
+		}
 		c.returns = append(c.returns, out...)
 		return flow{}
 	case *ast.BranchStmt:
